@@ -272,7 +272,7 @@ func c27Mid(c *Ctx, a, b []int) {
 			}
 		}()
 		x, y, s := diff.VerifMiddle(append([]int(nil), a...), append([]int(nil), b...))
-		ans = fmt.Sprintf("%d,%d,%d", x, y, s)
+		ans = fmt.Sprintf("%d,%d,%d opt", x, y, s)
 	}()
 	key := ""
 	if c27NonTrivial(a, b) {
